@@ -194,7 +194,7 @@ def _run_derived(p):
                     res = np.concatenate(pieces)
                     if not (np.array_equal(r.to_array(), arr, equal_nan=True) and len(r) == len(arr)
                             and np.array_equal(other.to_array(), rlgen.to_values(d["b"], p["dtype"], _dmode(p)), equal_nan=True)):
-                        raise AssertionError("np.concatenate changed one of its operands")
+                        raise engine.Inconsistent("np.concatenate changed one of its operands")
         dense, joined = _derived(p, arr)
         if len(dense) == 0:
             return {"k": "obs", "canonical": canon(True)}          # the empty result has no canonical form to judge
